@@ -491,8 +491,9 @@ type cfg struct {
 	DevID     string   `json:"device_id,omitempty"`
 	Group     int      `json:"group"`
 
-	fconf filter.Config
-	msgs  *dnsmsg.Constructor
+	fconf   filter.Config
+	msgs    *dnsmsg.Constructor
+	msgsErr string
 }
 
 func genCfg(rng *rand.Rand, w *world, idx, k int, anonymous bool, shape string) *cfg {
@@ -518,7 +519,20 @@ func genCfg(rng *rand.Rand, w *world, idx, k int, anonymous bool, shape string) 
 			c.Custom = cs
 		}
 		c.Mode = genModeShape(rng, shape)
-		c.TTL = []uint32{1, 5, 7, 30, 60, 120, 600, 3600}[rng.IntN(8)]
+		c.TTL = []uint32{5, 7, 30, 60, 120, 600, 3600}[rng.IntN(7)]
+		// every blocking shape gets a profile with TTL 0 (legal: "must be
+		// non-negative"; what the backend leaves when no TTL is set) in every
+		// third world and one with TTL 1 s in another third, deterministically.
+		for si, sh := range shapes {
+			if sh == shape {
+				switch (w.Idx + si) % 3 {
+				case 0:
+					c.TTL = 0
+				case 1:
+					c.TTL = 1
+				}
+			}
+		}
 	} else {
 		c.Mode, c.TTL = w.DefMode, w.DefTTL
 		c.Group = k
@@ -601,7 +615,12 @@ func (c *cfg) realize(w *world) error {
 	c.fconf = &filter.ConfigClient{Custom: cu, Parental: par, RuleList: rl, SafeBrowsing: sb}
 	c.msgs, err = dnsmsg.NewConstructor(&dnsmsg.ConstructorConfig{Cloner: w.cloner, BlockingMode: c.Mode.real(),
 		StructuredErrors: stack.SDE(false), FilteredResponseTTL: time.Duration(c.TTL) * time.Second})
-	return err
+	if err != nil {
+		// a legal profile whose message constructor is refused: the observation
+		// at the storage boundary is impossible, the one behind the stack is not.
+		c.msgs, c.msgsErr = nil, err.Error()
+	}
+	return nil
 }
 
 func (c *cfg) profile() (*agd.Profile, *agd.Device) {
